@@ -12,10 +12,13 @@
 (*                                                                         *)
 (* UtcRead = FALSE reproduces the historical reading of TIMESTAMP as local *)
 (* time (F2): last_mtime is then off by the timezone offset.               *)
+(* Each run requests a hash set (HashSets); an entry records the set it    *)
+(* was made with.  ShortcutChecksHashes = FALSE reproduces the short-cut   *)
+(* that skipped a file without looking at the entry's hash set (F27).      *)
 (***************************************************************************)
 EXTENDS Naturals, Integers, Sequences, FiniteSets, TLC
 
-CONSTANTS Files, MaxClock, TzOffsets, UtcRead, MaxRounds
+CONSTANTS Files, MaxClock, TzOffsets, UtcRead, MaxRounds, HashSets, ShortcutChecksHashes
 
 Contents == {"a", "b", "c2"}                 \* a, b: equal size; c2: another size
 SizeOf(c) == IF c = "c2" THEN 2 ELSE 1
@@ -24,7 +27,7 @@ Absent == [c |-> "none", mt |-> 0]
 VARIABLES clock,      \* half seconds
           tz,         \* local time = UTC + tz (whole seconds)
           tree,       \* file -> [c, mt] or Absent
-          inc, full,  \* file -> recorded content ("none" = no entry)
+          inc, full,  \* file -> [c: recorded content ("none" = no entry), hs: hash set of the entry]
           ts,         \* TIMESTAMP (whole seconds) shared by both replicas, -1 = none yet
           run,        \* the running incremental update: [on, start, last, todo, prevTs]
           dirty,      \* files modified since they were last hashed by an update, with mtime > prevTs rule kept
@@ -32,12 +35,14 @@ VARIABLES clock,      \* half seconds
           rounds
 vars == <<clock, tz, tree, inc, full, ts, run, dirty, excused, rounds>>
 
-Idle == [on |-> FALSE, start |-> 0, last |-> 0, todo |-> {}, prevTs |-> 0]
+H0 == CHOOSE h \in HashSets : TRUE
+NoEntry == [c |-> "none", hs |-> H0]
+Idle == [on |-> FALSE, start |-> 0, last |-> 0, todo |-> {}, prevTs |-> 0, req |-> H0]
 
 Init ==
     /\ clock = 4 /\ tz \in TzOffsets
     /\ tree = [f \in Files |-> [c |-> "a", mt |-> 1]]
-    /\ inc = [f \in Files |-> "a"] /\ full = [f \in Files |-> "a"]
+    /\ inc = [f \in Files |-> [c |-> "a", hs |-> H0]] /\ full = [f \in Files |-> [c |-> "a", hs |-> H0]]
     /\ ts = 2                                  \* a full update ran at second 2 (half-second 4)
     /\ run = Idle /\ dirty = {} /\ excused = {} /\ rounds = 0
 
@@ -55,8 +60,8 @@ Modify(f, c, m) ==
     \* update has already passed - the one that update is going to write.  Size changes,
     \* additions and deletions are picked up regardless.
     /\ LET ref == IF run.on /\ f \notin run.todo THEN run.start \div 2 ELSE ts IN
-       excused' = IF m > ref * 2 \/ c = "none" \/ inc[f] = "none"
-                     \/ SizeOf(c) # SizeOf(inc[f])        \* size differs from the recorded entry
+       excused' = IF m > ref * 2 \/ c = "none" \/ inc[f].c = "none"
+                     \/ SizeOf(c) # SizeOf(inc[f].c)      \* size differs from the recorded entry
                   THEN excused \ {f} ELSE excused \cup {f}
     /\ UNCHANGED <<clock, tz, inc, full, ts, run, rounds>>
 
@@ -69,18 +74,21 @@ LastMtime(t) == IF UtcRead THEN t * 2 ELSE (t - tz) * 2     \* in half seconds
 
 Start ==
     /\ ~run.on /\ rounds < MaxRounds
-    /\ run' = [on |-> TRUE, start |-> clock, last |-> LastMtime(ts), todo |-> Files, prevTs |-> ts]
+    /\ \E h \in HashSets :
+         run' = [on |-> TRUE, start |-> clock, last |-> LastMtime(ts), todo |-> Files, prevTs |-> ts, req |-> h]
     /\ rounds' = rounds + 1
     /\ UNCHANGED <<clock, tz, tree, inc, full, ts, dirty, excused>>
 
 HashOne(f) ==
     /\ run.on /\ f \in run.todo
     /\ LET n == tree[f] IN
-       IF n.c = "none" THEN inc' = [inc EXCEPT ![f] = "none"]            \* vanished: entry dropped
-       ELSE IF inc[f] # "none" /\ n.mt <= run.last /\ SizeOf(n.c) = SizeOf(inc[f])
+       IF n.c = "none" THEN inc' = [inc EXCEPT ![f] = NoEntry]           \* vanished: entry dropped
+       ELSE IF /\ inc[f].c # "none" /\ n.mt <= run.last /\ SizeOf(n.c) = SizeOf(inc[f].c)
+               /\ (ShortcutChecksHashes => inc[f].hs = run.req)
             THEN inc' = inc                                               \* skipped
-            ELSE inc' = [inc EXCEPT ![f] = n.c]
-    /\ full' = [full EXCEPT ![f] = tree[f].c]                             \* the full replica hashes everything
+            ELSE inc' = [inc EXCEPT ![f] = [c |-> n.c, hs |-> run.req]]
+    /\ full' = [full EXCEPT ![f] = IF tree[f].c = "none" THEN NoEntry     \* the full replica hashes everything
+                                   ELSE [c |-> tree[f].c, hs |-> run.req]]
     /\ run' = [run EXCEPT !.todo = run.todo \ {f}]
     /\ dirty' = dirty \ {f}
     /\ UNCHANGED <<clock, tz, tree, ts, excused, rounds>>
